@@ -11,7 +11,17 @@ func main() {
 	seed := flag.Int64("seed", 1, "PRNG seed")
 	out := flag.String("out", "-", "report file")
 	replay := flag.String("replay", "", "replay spec")
+	sub := flag.String("sub", "", "internal: run one probe in a child process")
 	flag.Parse()
+	if *sub != "" {
+		switch *sub {
+		case "c18":
+			subC18(flag.Arg(0))
+		default:
+			runSub(*sub, flag.Args())
+		}
+		return
+	}
 	if flag.NArg() < 1 {
 		fmt.Fprintln(os.Stderr, "usage: harness [flags] <property>")
 		os.Exit(2)
@@ -25,6 +35,8 @@ func main() {
 		runFaultSuite(rep, *tier, *seed, prop)
 	case "C14", "C15":
 		runTeardownSuite(rep, *tier, *seed, prop)
+	case "C18":
+		runC18(rep, *tier, *seed)
 	case "C01":
 		runC01(rep, *tier, *seed)
 	case "C02":
@@ -36,4 +48,9 @@ func main() {
 		os.Exit(2)
 	}
 	rep.write(*out)
+}
+
+func runSub(name string, args []string) {
+	fmt.Fprintln(os.Stderr, "unknown sub", name)
+	os.Exit(3)
 }
